@@ -913,10 +913,9 @@ class MatrixProduct:
 
     def canonicalise(self, stop_idx: int=None):
         # stop_idx: mix canonical site at `stop_idx`
-        if self.to_right:
-            assert self.qnidx == 0
-        else:
-            assert self.qnidx == self.site_num-1
+        # the sweep starts at the end `to_right` points away from: bring the qn centre there
+        # (only the bond quantum numbers change, the tensors are untouched)
+        self.move_qnidx(0 if self.to_right else self.site_num - 1)
 
         idx_list = self.iter_idx_list(full=False, stop_idx=stop_idx)
         for idx in idx_list:
